@@ -5,12 +5,14 @@ Model: `Sonic.Model.WsFrame` (`FrameCodec.Decode` with its lazy reset, over the 
 `Sonic.Model.WsBuf`), driven by scripts `feed bytes | read bytes | decode` in which every capacity chosen by
 the Go runtime is an argument.  Spec: the pure RFC 6455 parser and monitor of `Sonic.Spec.WsFrame`.
 
-Hypotheses (`InitOk`): the configured maximum leaves room for a header below `MaxInt64`
-(`max ≤ MaxInt64 - 14`; see `C07_huge_max_panics` for what happens otherwise) and the buffer starts with
-capacity ≥ 14 (`NewByteBuffer` gives 512).
+Hypotheses (`InitOk`): twice the configured maximum plus a header fits in an `int`
+(`2*max + 14 ≤ MaxInt64`, i.e. `max < 2^62 - 7`; see `C07_huge_max_panics` for what happens otherwise) and the
+buffer starts with capacity ≥ 14 (`NewByteBuffer` gives 512).  Memory exhaustion is outside the model: a
+`Reserve` of up to `max` bytes is assumed to succeed.
 -/
 import Sonic.Lemmas.WsDecode
 import Sonic.Lemmas.WsFrames
+import Sonic.Lemmas.WsEncodeSpec
 
 namespace Sonic.Props.C07
 open Sonic.Model.WsBuf Sonic.Model.WsFrame Sonic.Spec.WsFrame
@@ -19,7 +21,7 @@ open Sonic.Model.WsBuf Sonic.Model.WsFrame Sonic.Spec.WsFrame
 def R (m : DState) (s : S) : Prop :=
   m.c.Inv ∧ s.max = m.c.max ∧ s.held = m.c.held ∧ s.pending = m.c.unconsumed ∧ s.backlog = m.backlog
 
-def InitOk (max cap : Int) : Prop := max ≤ Go.I64MAX - 14 ∧ 14 ≤ cap ∧ cap ≤ Go.I64MAX
+def InitOk (max cap : Int) : Prop := 2 * max + 14 ≤ Go.I64MAX ∧ 14 ≤ cap ∧ cap ≤ Go.I64MAX
 instance (max cap : Int) : Decidable (InitOk max cap) := by unfold InitOk; exact inferInstance
 
 theorem R_init {max cap : Int} (h : InitOk max cap) : R (DState.init max cap) (init max) := by
@@ -166,5 +168,208 @@ theorem run_refines : ∀ (ops : List DOp) (m : DState) (s : S), R m s →
           rcases List.mem_cons.mp hx with h | h
           · rw [h]; exact hg
           · have := hres x h; rw [step_max hs] at this; exact this
+
+/-! ## The property, clause by clause -/
+
+abbrev Trace := List (DOp × Obs × Option Int)
+
+/-- The model's run from a fresh codec. -/
+def runInit (max cap : Int) (ops : List DOp) : M Trace := (DState.init max cap).run ops
+
+/-- **Total**: for every byte list, every segmentation, every placement of `Decode` calls and every capacity
+the runtime may answer, the decoder never panics and never interprets bytes it has not received — the only
+way the model's run can stop is an inadmissible capacity answer. -/
+theorem C07_total (max cap : Int) (h : InitOk max cap) (ops : List DOp) :
+    ∀ e, runInit max cap ops = .error e → e = .env := by
+  intro e he
+  rcases run_refines ops _ _ (R_init h) with h1 | ⟨tr, h1, _⟩
+  · unfold runInit at he; rw [h1] at he; cases he; rfl
+  · unfold runInit at he; rw [h1] at he; cases he
+
+/-- **Accepted**: every observation of every run is accepted by the RFC 6455 monitor. -/
+theorem C07_accepted (max cap : Int) (h : InitOk max cap) (ops : List DOp) (tr : Trace)
+    (hrun : runInit max cap ops = .ok tr) : accepts (init max) (specTrace tr) = true := by
+  rcases run_refines ops _ _ (R_init h) with h1 | ⟨tr', h1, hacc, _⟩
+  · unfold runInit at hrun; rw [h1] at hrun; cases hrun
+  · unfold runInit at hrun; rw [h1] at hrun; cases hrun; exact hacc
+
+/-- **Bounded**: no yielded frame has a payload above the maximum, and whenever the decoder asks the buffer
+to make room (`src.Reserve(n)`) it asks for `0 ≤ n ≤ max`. -/
+theorem C07_bounded (max cap : Int) (h : InitOk max cap) (ops : List DOp) (tr : Trace)
+    (hrun : runInit max cap ops = .ok tr) :
+    ∀ x ∈ tr, (∀ f n, x.2.1.out = .frame f n → (f.payload.length : Int) ≤ max) ∧
+              (∀ k, x.2.2 = some k → 0 ≤ k ∧ k ≤ max) := by
+  rcases run_refines ops _ _ (R_init h) with h1 | ⟨tr', h1, hacc, hres⟩
+  · unfold runInit at hrun; rw [h1] at hrun; cases hrun
+  · unfold runInit at hrun; rw [h1] at hrun; cases hrun
+    intro x hx
+    refine ⟨?_, hres x hx⟩
+    have := accepts_good _ _ hacc (x.1.toSpec, x.2.1) (List.mem_map.mpr ⟨x, hx, rfl⟩)
+    exact this.2.2.1
+
+/-- **64-bit lengths with the top bit set** (the defect repaired by 549141a) are refused as soon as the length
+field is complete, from every reachable codec state and whatever follows. -/
+theorem C07_bounded_top_bit (c : Codec) (cap' : Int) (hI : c.Inv) (h10 : 10 ≤ c.unconsumed.length)
+    (h127 : byteAt c.unconsumed 1 % 128 = 127) (htop : 2 ^ 63 ≤ beNat ((c.unconsumed.drop 2).take 8)) :
+    ∃ c', c.Decode cap' = .ok (c', .tooBig, none) := by
+  have hext : extLen (byteAt c.unconsumed 1) = 8 := by unfold extLen; rw [if_pos h127]
+  have hd : declLen c.unconsumed = beNat ((c.unconsumed.drop 2).take 8) := by
+    unfold declLen; rw [hext, if_neg (by omega)]
+  have hm := hI.max_le
+  have hp : parse c.max c.unconsumed = .tooBig :=
+    parse_tooBig_of (by omega) (by omega) (by rw [hd]; unfold Go.I64MAX at hm; omega)
+  obtain ⟨c', hc, _⟩ := decode_tooBig cap' hI hp
+  exact ⟨c', hc⟩
+
+/-- **A `need more` answer leaves room for the next read** (`Reserved() > 0`): a transport read into the
+buffer is never a zero-length read that would be taken for EOF. -/
+theorem C07_needmore_can_progress (max cap : Int) (h : InitOk max cap) (ops : List DOp) (tr : Trace)
+    (hrun : runInit max cap ops = .ok tr) : ∀ x ∈ tr, x.2.1.out = .needMore → 0 < x.2.1.reserved := by
+  intro x hx
+  have := accepts_good _ _ (C07_accepted max cap h ops tr hrun) (x.1.toSpec, x.2.1) (List.mem_map.mpr ⟨x, hx, rfl⟩)
+  exact this.2.2.2
+
+/-- **Consumes exactly**: a successful `Decode` hands out exactly the first `len(frame)` unconsumed bytes and the
+next `Decode` starts right after them; an unsuccessful one consumes nothing. (`unconsumed` = buffer contents
+minus the frame handed out by the previous call, which the lazy reset drops.) -/
+theorem C07_consumes_exactly (c c' : Codec) (cap' : Int) (o : Decoded) (g : Option Int) (hI : c.Inv)
+    (hD : c.Decode cap' = .ok (c', o, g)) :
+    c'.Inv ∧
+    match o with
+    | .frame fb => fb = c.unconsumed.take fb.length ∧ fb.length ≤ c.unconsumed.length ∧ 2 ≤ fb.length ∧
+                   c'.unconsumed = c.unconsumed.drop fb.length
+    | _ => c'.unconsumed = c.unconsumed := by
+  cases hp : parse c.max c.unconsumed with
+  | needMore =>
+    rcases decode_needMore cap' hI hp with he | ⟨c2, g2, hD2, ci, cr, cd, _⟩
+    · rw [he] at hD; cases hD
+    · rw [hD2] at hD; cases hD
+      refine ⟨ci, ?_⟩
+      show c'.unconsumed = _
+      unfold Codec.unconsumed Codec.held at *; rw [cr, cd]; rfl
+  | tooBig =>
+    obtain ⟨c2, hD2, ci, cr, cd, _⟩ := decode_tooBig cap' hI hp
+    rw [hD2] at hD; cases hD
+    refine ⟨ci, ?_⟩
+    show c'.unconsumed = _
+    unfold Codec.unconsumed Codec.held at *; rw [cr, cd]; rfl
+  | frame f n =>
+    obtain ⟨c2, hD2, ci, cr, cf, cd, _⟩ := decode_frame cap' hI hp
+    obtain ⟨h2, hn, hle, _, _⟩ := parse_frame hp
+    have hge := hdrLen_ge c.unconsumed
+    rw [hD2] at hD; cases hD
+    have hl : (c.unconsumed.take n).length = n := by rw [List.length_take]; omega
+    refine ⟨ci, ?_⟩
+    show _ ∧ _ ∧ _ ∧ c'.unconsumed = _
+    rw [hl]
+    refine ⟨rfl, hle, by omega, ?_⟩
+    unfold Codec.unconsumed Codec.held at *; rw [cr, cf, cd]; simp
+
+/-! ### Segmentation independence -/
+
+/-- The bytes of the `feed` operations of a script, in order. -/
+def opsBytes : List DOp → List UInt8
+  | [] => []
+  | .feed bs _ :: r => bs ++ opsBytes r
+  | _ :: r => opsBytes r
+
+/-- The script delivers bytes with `feed` only (no partial transport reads). -/
+def FeedOnly (ops : List DOp) : Prop := ∀ op ∈ ops, ∀ bs, op ≠ .read bs
+
+/-- The last call of the trace is a `Decode` that returned `need more` or `too big`: the decoder was run to
+exhaustion on what it had been given. -/
+def Drained (tr : Trace) (fin : Final) : Prop :=
+  ∃ ob, (specTrace tr).getLast? = some (.decode, ob) ∧
+    ((fin = .needMore ∧ ob.out = .needMore) ∨ (fin = .tooBig ∧ ob.out = .tooBig))
+
+theorem run_ops : ∀ (ops : List DOp) (m : DState) (tr : Trace), m.run ops = .ok tr → tr.map (·.1) = ops := by
+  intro ops
+  induction ops with
+  | nil => intro m tr h; cases h; rfl
+  | cons op r ih =>
+    intro m tr h
+    unfold DState.run at h
+    cases hs : m.step op with
+    | error e => rw [hs] at h; cases h
+    | ok x =>
+      rw [hs] at h
+      simp only [ebind_ok] at h
+      cases hr : x.1.run r with
+      | error e => rw [hr] at h; cases h
+      | ok t => rw [hr] at h; cases h; simp [ih _ _ hr]
+
+theorem fedBytes_specTrace : ∀ (tr : Trace), fedBytes (specTrace tr) = opsBytes (tr.map (·.1)) := by
+  intro tr
+  induction tr with
+  | nil => rfl
+  | cons x r ih =>
+    obtain ⟨op, ob, g⟩ := x
+    cases op <;> simp [specTrace, fedBytes, opsBytes, DOp.toSpec] <;> exact ih
+
+theorem noRead_specTrace (tr : Trace) (h : FeedOnly (tr.map (·.1))) : NoRead (specTrace tr) := by
+  intro e he bs hc
+  obtain ⟨x, hx, rfl⟩ := List.mem_map.mp he
+  obtain ⟨op, ob, g⟩ := x
+  cases op with
+  | feed b c => cases hc
+  | decode c => cases hc
+  | read b => exact h (.read b) (List.mem_map.mpr ⟨_, hx, rfl⟩) b rfl
+
+/-- **The frames are the frames of the byte stream**: whatever the segmentation, wherever `Decode` was called
+and whatever the runtime answered, once the decoder has been run to exhaustion the frames it yielded are
+exactly the frame sequence (RFC 6455 parse, repeated) of the concatenation of the delivered bytes, and the
+final answer (`need more` / `too big`) is the one of that sequence. -/
+theorem C07_frames_of_stream (max cap : Int) (h : InitOk max cap) (ops : List DOp) (tr : Trace)
+    (hrun : runInit max cap ops = .ok tr) (hfeed : FeedOnly ops) (fin : Final) (hdr : Drained tr fin) :
+    frames max (opsBytes ops) = (yielded (specTrace tr), fin) := by
+  have hacc := C07_accepted max cap h ops tr hrun
+  have hops := run_ops ops _ tr hrun
+  obtain ⟨ob, hl, hfin⟩ := hdr
+  have hd := frames_drained hacc hl
+  have hdel : delivered (init max) (specTrace tr) = opsBytes ops := by
+    rw [delivered_noRead _ _ hacc (noRead_specTrace tr (by rw [hops]; exact hfeed)), fedBytes_specTrace, hops]
+  rw [hdel] at hd
+  simp only [init, List.nil_append] at hd
+  rcases hfin with ⟨rfl, ho⟩ | ⟨rfl, ho⟩
+  · exact hd.1 ho
+  · exact hd.2 ho
+
+/-- **Segmentation independence**: two scripts that deliver the same bytes — split differently, with `Decode`
+called at different moments, with different runtime capacities — yield the same frames and end the same way. -/
+theorem C07_segmentation_independent (max cap₁ cap₂ : Int) (h₁ : InitOk max cap₁) (h₂ : InitOk max cap₂)
+    (ops₁ ops₂ : List DOp) (tr₁ tr₂ : Trace)
+    (hrun₁ : runInit max cap₁ ops₁ = .ok tr₁) (hrun₂ : runInit max cap₂ ops₂ = .ok tr₂)
+    (hf₁ : FeedOnly ops₁) (hf₂ : FeedOnly ops₂) (hbytes : opsBytes ops₁ = opsBytes ops₂)
+    (fin₁ fin₂ : Final) (hd₁ : Drained tr₁ fin₁) (hd₂ : Drained tr₂ fin₂) :
+    yielded (specTrace tr₁) = yielded (specTrace tr₂) ∧ fin₁ = fin₂ := by
+  have e1 := C07_frames_of_stream max cap₁ h₁ ops₁ tr₁ hrun₁ hf₁ fin₁ hd₁
+  have e2 := C07_frames_of_stream max cap₂ h₂ ops₂ tr₂ hrun₂ hf₂ fin₂ hd₂
+  rw [hbytes, e2] at e1
+  exact ⟨(Prod.mk.inj e1).1.symm, (Prod.mk.inj e1).2.symm⟩
+
+/-- The same with partial transport reads (`read`): the yielded frames are the frame sequence of the bytes that
+entered the buffer. -/
+theorem C07_frames_of_stream_reads (max cap : Int) (h : InitOk max cap) (ops : List DOp) (tr : Trace)
+    (hrun : runInit max cap ops = .ok tr) (fin : Final) (hdr : Drained tr fin) :
+    frames max (delivered (init max) (specTrace tr)) = (yielded (specTrace tr), fin) := by
+  have hacc := C07_accepted max cap h ops tr hrun
+  obtain ⟨ob, hl, hfin⟩ := hdr
+  have hd := frames_drained hacc hl
+  simp only [init, List.nil_append] at hd
+  rcases hfin with ⟨rfl, ho⟩ | ⟨rfl, ho⟩
+  · exact hd.1 ho
+  · exact hd.2 ho
+
+/-- **decode ∘ encode = id**: for every list of frames (every FIN/RSV/opcode/mask combination, every payload
+length up to the maximum, hence every length class 7/16/64 bit), feeding the encoder's output in any
+segmentation and decoding to exhaustion returns exactly those frames. -/
+theorem C07_decode_encode (max cap : Int) (h : InitOk max cap) (fs : List Frame)
+    (hfs : ∀ f ∈ fs, f.WF ∧ (f.payload.length : Int) ≤ max)
+    (ops : List DOp) (tr : Trace) (hrun : runInit max cap ops = .ok tr) (hfeed : FeedOnly ops)
+    (hbytes : opsBytes ops = fs.flatMap encode) (fin : Final) (hdr : Drained tr fin) :
+    yielded (specTrace tr) = fs ∧ fin = .needMore := by
+  have e := C07_frames_of_stream max cap h ops tr hrun hfeed fin hdr
+  rw [hbytes, frames_encode max fs hfs] at e
+  exact ⟨(Prod.mk.inj e).1.symm, (Prod.mk.inj e).2.symm⟩
 
 end Sonic.Props.C07
